@@ -154,8 +154,8 @@ theorem NEinv.restart {m : Mono} {tock D F ℓ : Int} (h : NEinv m tock D F ℓ)
     NEinv (m.restart none) tock (D + tock) F ℓ := by
   have := h.slack; have := h.dur
   refine ⟨h.retro, ?_, ?_⟩
-  · simp only [Mono.restart, Mono.startAt, Mono.duration]; omega
-  · simp only [Mono.restart, Mono.startAt, Mono.duration]; omega
+  · simp only [Mono.restart, Mono.startAt, Mono.duration, durOr]; omega
+  · simp only [Mono.restart, Mono.startAt, Mono.duration, durOr]; omega
 
 theorem succ_mul_tock (k : Nat) (tock : Int) : (((k + 1 : Nat) : Int) + 1) * tock = ((k : Int) + 1) * tock + tock := by
   rw [Int.add_mul ((k + 1 : Nat) : Int) 1 tock]; simp
@@ -194,7 +194,7 @@ theorem cycles_ne {σ} (clk : Clock σ) (fuel : Nat) (tock : Int) : ∀ (n k : N
 (the only thing that survives from before the run is `retro`) -/
 theorem NEinv.init (m : Mono) (tock r0 : Int) (h : m.retro = true) :
     NEinv (m.startNow (some tock) r0) tock ((((0 : Nat) : Int) + 1) * tock) 0 r0 := by
-  refine ⟨h, ?_, ?_⟩ <;> simp [Mono.startNow, Mono.startAt] <;> omega
+  refine ⟨h, ?_, ?_⟩ <;> simp [Mono.startNow, Mono.startAt, durOr] <;> omega
 
 theorem doRun_neverEarly {σ} (clk : Clock σ) (fuel : Nat) (m : Mono) (c : σ) (tock : Int) (n : Nat) (xs : List Nat)
     (h : m.retro = true) : NeverEarly tock (doRun clk fuel m c tock n xs).1 := by
@@ -270,8 +270,8 @@ theorem LLinv.restart {m : Mono} {tock D E lt : Int} (h : LLinv m tock D E lt) :
     LLinv (m.restart none) tock (D + tock) E lt := by
   have := h.rem; have := h.dur
   refine ⟨h.retro, ?_, h.last, ?_⟩
-  · simp only [Mono.restart, Mono.startAt, Mono.duration]; omega
-  · simp only [Mono.restart, Mono.startAt, Mono.duration]; omega
+  · simp only [Mono.restart, Mono.startAt, Mono.duration, durOr]; omega
+  · simp only [Mono.restart, Mono.startAt, Mono.duration, durOr]; omega
 
 theorem xreads_ll {σ} (clk : Clock σ) (tock : Int) : ∀ (x : Nat) (c : σ) (E lt : Int) (k : Nat),
     losslessFrom tock E lt k (xreads clk x c).1 ∧ accL E lt k (xreads clk x c).1 = (E, lt, k)
@@ -354,7 +354,7 @@ theorem cycles_ll {σ} (clk : Clock σ) (fuel : Nat) (tock : Int) : ∀ (n k : N
 
 theorem LLinv.init (m : Mono) (tock r0 : Int) (h : m.retro = true) :
     LLinv (m.startNow (some tock) r0) tock ((((0 : Nat) : Int) + 1) * tock) 0 r0 := by
-  refine ⟨h, ?_, ?_, ?_⟩ <;> simp [Mono.startNow, Mono.startAt] <;> omega
+  refine ⟨h, ?_, ?_, ?_⟩ <;> simp [Mono.startNow, Mono.startAt, durOr] <;> omega
 
 theorem doRun_lossless {σ} (clk : Clock σ) (fuel : Nat) (m : Mono) (c : σ) (tock : Int) (n : Nat) (xs : List Nat)
     (h : m.retro = true) : Lossless tock (doRun clk fuel m c tock n xs).1 := by
@@ -484,5 +484,303 @@ theorem paceRun_cases {σ} (clk : Clock σ) (fuel : Nat) (c : σ) (tock0 : Optio
           refine ⟨m2, c2, by rw [hr, hm], ?_, ?_⟩
           · dsimp only; rw [ht]
           · dsimp only; rw [ht]
+
+
+/-! ## C08: the virtual Tymer refines the reference timer -/
+
+structure TSim (t : Tymer) (r : TRef) : Prop where
+  wound : t.wound = r.wound
+  start : t.start = r.start
+  stop : t.stop = r.start + r.dur
+
+theorem tsnap_eq_report (w : TWorld) (t : Tymer) (r : TRef) (h : TSim t r) (ret : Option Int) :
+    tsnap w t ret = r.report w ret := by
+  obtain ⟨hw, hs, hp⟩ := h
+  have hd : t.stop - t.start = r.dur := by omega
+  unfold tsnap TRef.report Tymer.elapsed Tymer.remaining Tymer.expired Tymer.now TRef.now Tymer.duration
+  rw [hw, hd, hs, hp]
+  cases r.wound <;> rfl
+
+theorem TSim.new (w : TWorld) (wound : Option Nat) (dur start : Option Int) :
+    TSim (Tymer.new w wound dur start) (TRef.new w wound dur start) := by
+  refine ⟨rfl, ?_, ?_⟩
+  · cases start <;> cases wound <;> rfl
+  · cases start <;> cases wound <;> cases dur <;> rfl
+
+theorem trun_eq_rrun : ∀ (ops : List TOp) (w : TWorld) (t : Tymer) (r : TRef), TSim t r → trun w t ops = rrun w r ops
+  | [], w, t, r, h => rfl
+  | op :: ops, w, t, r, h => by
+    obtain ⟨hw, hs, hp⟩ := h
+    have hd : t.duration = r.dur := by unfold Tymer.duration; omega
+    cases op with
+    | setTyme i v =>
+      simp only [trun, rrun, tstep, rstep]
+      rw [tsnap_eq_report _ t r ⟨hw, hs, hp⟩, trun_eq_rrun ops _ t r ⟨hw, hs, hp⟩]
+    | tick i =>
+      simp only [trun, rrun, tstep, rstep]
+      rw [tsnap_eq_report _ t r ⟨hw, hs, hp⟩, trun_eq_rrun ops _ t r ⟨hw, hs, hp⟩]
+    | start d s =>
+      cases s with
+      | some s =>
+        have hsim : TSim { t with start := s, stop := s + durOr d t.duration }
+            { r with start := s, dur := durOr d r.dur } := ⟨hw, rfl, by cases d <;> simp [durOr, hd]⟩
+        simp only [trun, rrun, tstep, rstep, Tymer.startOp]
+        rw [tsnap_eq_report _ _ _ hsim, trun_eq_rrun ops _ _ _ hsim]
+      | none =>
+        simp only [trun, rrun, tstep, rstep, Tymer.startOp, Tymer.now, TRef.now, hw]
+        cases hwd : r.wound with
+        | none => rfl
+        | some i =>
+          have hsim : TSim { wound := some i, start := w.tyme i, stop := w.tyme i + durOr d t.duration }
+              { wound := some i, start := w.tyme i, dur := durOr d r.dur } := ⟨rfl, rfl, by cases d <;> simp [durOr, hd]⟩
+          simp only []
+          rw [tsnap_eq_report _ _ _ hsim, trun_eq_rrun ops _ _ _ hsim]
+    | restart d =>
+      have hsim : TSim { t with start := t.stop, stop := t.stop + durOr d t.duration }
+          { r with start := r.start + r.dur, dur := durOr d r.dur } := ⟨hw, hp, by cases d <;> simp [durOr, hd, hp]⟩
+      simp only [trun, rrun, tstep, rstep, Tymer.restartOp, Tymer.startOp]
+      rw [tsnap_eq_report _ _ _ hsim, trun_eq_rrun ops _ _ _ hsim, hp]
+    | wind i =>
+      have hsim : TSim { wound := some i, start := w.tyme i, stop := w.tyme i + durOr none (t.stop - t.start) }
+          { r with wound := some i, start := w.tyme i } := ⟨rfl, rfl, by simp [← hd, durOr, Tymer.duration]⟩
+      simp only [trun, rrun, tstep, rstep, Tymer.startOp, Tymer.now, Tymer.duration]
+      rw [tsnap_eq_report _ _ _ hsim, trun_eq_rrun ops _ _ _ hsim]
+
+
+theorem nat_succ_mul (k : Nat) (D : Int) : ((k + 1 : Nat) : Int) * D = (k : Int) * D + D := by
+  rw [Int.natCast_add, Int.add_mul]; simp
+
+/-- tyme changes and plain restarts, in any number and order: `k` restarts move start and stop by exactly `k` durations -/
+theorem texec_restarts (D : Int) : ∀ (ops : List TOp) (w : TWorld) (t : Tymer),
+    (∀ op ∈ ops, op.tymeOrRestart = true) → t.stop - t.start = D →
+    ∃ w' t', texec w t ops = some (w', t') ∧ t'.wound = t.wound ∧
+      t'.start = t.start + (restartsIn ops : Int) * D ∧ t'.stop = t.stop + (restartsIn ops : Int) * D
+  | [], w, t, _, _ => ⟨w, t, rfl, rfl, by simp [restartsIn], by simp [restartsIn]⟩
+  | op :: ops, w, t, hall, hD => by
+    have hop := hall op (List.mem_cons_self)
+    have hrest : ∀ o ∈ ops, o.tymeOrRestart = true := fun o ho => hall o (List.mem_cons_of_mem _ ho)
+    cases op with
+    | setTyme i v =>
+      obtain ⟨w', t', h1, h2, h3, h4⟩ := texec_restarts D ops (w.set i v) t hrest hD
+      exact ⟨w', t', by simp only [texec, tstep]; exact h1, h2, by simpa [restartsIn] using h3, by simpa [restartsIn] using h4⟩
+    | tick i =>
+      obtain ⟨w', t', h1, h2, h3, h4⟩ := texec_restarts D ops (w.set i (w.tyme i + w.tock i)) t hrest hD
+      exact ⟨w', t', by simp only [texec, tstep]; exact h1, h2, by simpa [restartsIn] using h3, by simpa [restartsIn] using h4⟩
+    | start d s => simp [TOp.tymeOrRestart] at hop
+    | wind i => simp [TOp.tymeOrRestart] at hop
+    | restart d =>
+      cases d with
+      | some d => simp [TOp.tymeOrRestart] at hop
+      | none =>
+        have hD' : ({ t with start := t.stop, stop := t.stop + durOr none t.duration } : Tymer).stop
+            - ({ t with start := t.stop, stop := t.stop + durOr none t.duration } : Tymer).start = D := by
+          simp only [durOr, Tymer.duration]; omega
+        obtain ⟨w', t', h1, h2, h3, h4⟩ := texec_restarts D ops w _ hrest hD'
+        refine ⟨w', t', by simp only [texec, tstep, Tymer.restartOp, Tymer.startOp]; exact h1, h2, ?_, ?_⟩
+        · rw [h3]; simp only [restartsIn, nat_succ_mul]; omega
+        · rw [h4]; simp only [restartsIn, nat_succ_mul, durOr, Tymer.duration]; omega
+
+/-! ## C08: MonoTimer -/
+
+theorem realElapsed_nonneg : ∀ (rs : List Int) (ℓ : Int), 0 ≤ realElapsed ℓ rs
+  | [], _ => by simp [realElapsed]
+  | r :: rs, ℓ => by have := realElapsed_nonneg rs r; simp only [realElapsed]; omega
+
+/-- one observation never moves elapsed down nor remaining up, and reports the timer's own `last - start` / `last ≥ stop` -/
+theorem mstep_obs {σ} (clk : Clock σ) (m m' : Mono) (c c' : σ) (op : MOp) (v : MVal) (hop : op.isObs = true)
+    (h : mstep clk m c op = some (v, m', c')) :
+    m.last - m.start ≤ m'.last - m'.start ∧ m.last - m.stop ≤ m'.last - m'.stop ∧
+      (∀ x, elapsedVal? op (some (v, c')) = some x → x = m'.last - m'.start) ∧
+      (∀ b, expiredVal? op (some (v, c')) = some b → b = decide (m'.stop ≤ m'.last)) := by
+  have key : ∀ (r l : Int) (m1 : Mono), m.latest r = .ok (l, m1) →
+      l = m1.last ∧ m.last - m.start ≤ m1.last - m1.start ∧ m.last - m.stop ≤ m1.last - m1.stop := by
+    intro r l m1 hl
+    obtain ⟨h1, hs⟩ := Mono.latest_ok hl
+    have := hs.rem; have := hs.ela; have := hs.last
+    omega
+  cases op with
+  | start d s => simp [MOp.isObs] at hop
+  | restart d => simp [MOp.isObs] at hop
+  | duration =>
+    simp only [mstep] at h
+    injection h with h; injection h with h1 h; injection h with h2 h3
+    subst h2
+    exact ⟨by omega, by omega, by intro x hx; simp [elapsedVal?] at hx, by intro b hb; simp [expiredVal?] at hb⟩
+  | elapsed =>
+    simp only [mstep] at h
+    split at h
+    · cases h
+    · unfold Mono.elapsed at h
+      split at h
+      · rename_i hl; split at hl
+        · rename_i l m1 hlat
+          injection hl with hl; injection hl with e1 e2
+          injection h with h; injection h with h1 h; injection h with h2 h3
+          subst h2; subst e2
+          obtain ⟨k1, k2, k3⟩ := key _ _ _ hlat
+          refine ⟨k2, k3, ?_, by intro b hb; simp [expiredVal?] at hb⟩
+          intro x hx
+          rw [← h1] at hx
+          simp only [elapsedVal?] at hx
+          injection hx with hx
+          omega
+        · cases hl
+      · injection h with h; injection h with h1 h; injection h with h2 h3
+        subst h2
+        rw [← h1]
+        exact ⟨by omega, by omega, by intro x hx; simp [elapsedVal?] at hx, by intro b hb; simp [expiredVal?] at hb⟩
+  | remaining =>
+    simp only [mstep] at h
+    split at h
+    · cases h
+    · unfold Mono.remaining at h
+      split at h
+      · rename_i hl; split at hl
+        · rename_i l m1 hlat
+          injection hl with hl; injection hl with e1 e2
+          injection h with h; injection h with h1 h; injection h with h2 h3
+          subst h2; subst e2
+          obtain ⟨k1, k2, k3⟩ := key _ _ _ hlat
+          exact ⟨k2, k3, by intro x hx; simp [elapsedVal?] at hx, by intro b hb; simp [expiredVal?] at hb⟩
+        · cases hl
+      · injection h with h; injection h with h1 h; injection h with h2 h3
+        subst h2
+        exact ⟨by omega, by omega, by intro x hx; simp [elapsedVal?] at hx, by intro b hb; simp [expiredVal?] at hb⟩
+  | latest =>
+    simp only [mstep] at h
+    split at h
+    · cases h
+    · split at h
+      · rename_i l m1 hlat
+        injection h with h; injection h with h1 h; injection h with h2 h3
+        subst h2
+        obtain ⟨k1, k2, k3⟩ := key _ _ _ hlat
+        exact ⟨k2, k3, by intro x hx; simp [elapsedVal?] at hx, by intro b hb; simp [expiredVal?] at hb⟩
+      · injection h with h; injection h with h1 h; injection h with h2 h3
+        subst h2
+        exact ⟨by omega, by omega, by intro x hx; simp [elapsedVal?] at hx, by intro b hb; simp [expiredVal?] at hb⟩
+  | expired =>
+    simp only [mstep] at h
+    split at h
+    · cases h
+    · unfold Mono.expired at h
+      split at h
+      · rename_i hl; split at hl
+        · rename_i l m1 hlat
+          injection hl with hl; injection hl with e1 e2
+          injection h with h; injection h with h1 h; injection h with h2 h3
+          subst h2; subst e2
+          obtain ⟨k1, k2, k3⟩ := key _ _ _ hlat
+          refine ⟨k2, k3, by intro x hx; simp [elapsedVal?] at hx, ?_⟩
+          intro b hb
+          rw [← h1] at hb
+          simp only [expiredVal?] at hb
+          injection hb with hb
+          rw [← hb, ← e1, k1]
+        · cases hl
+      · injection h with h; injection h with h1 h; injection h with h2 h3
+        subst h2
+        rw [← h1]
+        exact ⟨by omega, by omega, by intro x hx; simp [elapsedVal?] at hx, by intro b hb; simp [expiredVal?] at hb⟩
+
+
+/-- between two start/restart calls: the `elapsed` results are non-decreasing (and never below the timer's current
+elapsed), for every clock and every timer (retro or not) -/
+theorem mrun_elapsed_sorted {σ} (clk : Clock σ) : ∀ (ops : List MOp) (m : Mono) (c : σ),
+    (∀ op ∈ ops, op.isObs = true) →
+    List.Pairwise (· ≤ ·) (elapsedVals ops (mrun clk m c ops)) ∧
+      ∀ v ∈ elapsedVals ops (mrun clk m c ops), m.last - m.start ≤ v
+  | [], m, c, _ => by simp [elapsedVals]
+  | op :: ops, m, c, hall => by
+    have hop := hall op (List.mem_cons_self)
+    have hrest : ∀ o ∈ ops, o.isObs = true := fun o ho => hall o (List.mem_cons_of_mem _ ho)
+    unfold mrun
+    cases hs : mstep clk m c op with
+    | none =>
+      have : elapsedVal? op (none : Option (MVal × σ)) = none := by cases op <;> rfl
+      simp [elapsedVals, this]
+    | some p =>
+      obtain ⟨v, m', c'⟩ := p
+      obtain ⟨k1, _, k3, _⟩ := mstep_obs clk m m' c c' op v hop hs
+      obtain ⟨ih1, ih2⟩ := mrun_elapsed_sorted clk ops m' c' hrest
+      simp only [elapsedVals]
+      cases he : elapsedVal? op (some (v, c')) with
+      | none => exact ⟨ih1, fun x hx => by have := ih2 x hx; omega⟩
+      | some x =>
+        have hx := k3 x he
+        refine ⟨List.pairwise_cons.2 ⟨fun y hy => by have := ih2 y hy; omega, ih1⟩, ?_⟩
+        intro y hy
+        rcases List.mem_cons.1 hy with rfl | hy
+        · omega
+        · have := ih2 y hy; omega
+
+/-- between two start/restart calls: once `expired` has been reported true it is never reported false again -/
+theorem mrun_expired_monotone {σ} (clk : Clock σ) : ∀ (ops : List MOp) (m : Mono) (c : σ),
+    (∀ op ∈ ops, op.isObs = true) →
+    List.Pairwise (fun a b => a = true → b = true) (expiredVals ops (mrun clk m c ops)) ∧
+      ∀ b ∈ expiredVals ops (mrun clk m c ops), m.stop ≤ m.last → b = true
+  | [], m, c, _ => by simp [expiredVals]
+  | op :: ops, m, c, hall => by
+    have hop := hall op (List.mem_cons_self)
+    have hrest : ∀ o ∈ ops, o.isObs = true := fun o ho => hall o (List.mem_cons_of_mem _ ho)
+    unfold mrun
+    cases hs : mstep clk m c op with
+    | none =>
+      have : expiredVal? op (none : Option (MVal × σ)) = none := by cases op <;> rfl
+      simp [expiredVals, this]
+    | some p =>
+      obtain ⟨v, m', c'⟩ := p
+      obtain ⟨_, k2, _, k4⟩ := mstep_obs clk m m' c c' op v hop hs
+      obtain ⟨ih1, ih2⟩ := mrun_expired_monotone clk ops m' c' hrest
+      simp only [expiredVals]
+      cases he : expiredVal? op (some (v, c')) with
+      | none => exact ⟨ih1, fun x hx hm => ih2 x hx (by omega)⟩
+      | some x =>
+        have hx := k4 x he
+        refine ⟨List.pairwise_cons.2 ⟨fun y hy hxt => ih2 y hy (by rw [hx] at hxt; simpa using hxt), ih1⟩, ?_⟩
+        intro y hy hm
+        rcases List.mem_cons.1 hy with rfl | hy
+        · rw [hx]; simp; omega
+        · exact ih2 y hy (by omega)
+
+/-- a retro timer fed any readings and restarts: it never raises, keeps its duration `D`, and its elapsed / remaining are
+the real elapsed time over the readings, shifted by one duration per restart -/
+theorem feed_exact (D : Int) : ∀ (es : List MEv) (m : Mono), m.retro = true → m.stop - m.start = D →
+    ∃ m', m.feed es = .ok m' ∧ m'.retro = true ∧ m'.stop - m'.start = D ∧
+      m'.last - m'.start = (m.last - m.start) + realElapsed m.last (readsOf es) - (restartsOf es : Int) * D ∧
+      m'.stop - m'.last = (m.stop - m.last) - realElapsed m.last (readsOf es) + (restartsOf es : Int) * D
+  | [], m, h, hD => ⟨m, rfl, h, hD, by simp [readsOf, realElapsed, restartsOf], by simp [readsOf, realElapsed, restartsOf]⟩
+  | .read r :: es, m, h, hD => by
+    obtain ⟨m1, hl⟩ := m.latest_retro r h
+    have hs := (Mono.latest_ok hl).2
+    obtain ⟨m', h1, h2, h3, h4, h5⟩ := feed_exact D es m1 (by rw [hs.retro, h]) (by rw [hs.dur, hD])
+    refine ⟨m', by simp only [Mono.feed, hl]; exact h1, h2, h3, ?_, ?_⟩
+    · have := hs.ela; have := hs.last; simp only [readsOf, realElapsed, restartsOf]; rw [h4, hs.last]; omega
+    · have := hs.rem; have := hs.last; simp only [readsOf, realElapsed, restartsOf]; rw [h5, hs.last]; omega
+  | .restart :: es, m, h, hD => by
+    have hD' : (m.restart none).stop - (m.restart none).start = D := by
+      simp only [Mono.restart, Mono.startAt, Mono.duration, durOr]; omega
+    obtain ⟨m', h1, h2, h3, h4, h5⟩ := feed_exact D es (m.restart none) h hD'
+    refine ⟨m', by simp only [Mono.feed]; exact h1, h2, h3, ?_, ?_⟩
+    · rw [h4]; simp only [readsOf, restartsOf, nat_succ_mul, Mono.restart, Mono.startAt, Mono.duration, durOr]; omega
+    · rw [h5]; simp only [readsOf, restartsOf, nat_succ_mul, Mono.restart, Mono.startAt, Mono.duration, durOr]; omega
+
+
+theorem realElapsed_snoc : ∀ (rs : List Int) (ℓ r : Int),
+    realElapsed ℓ (rs ++ [r]) = realElapsed ℓ rs + max 0 (r - lastReading ℓ rs)
+  | [], ℓ, r => by simp [realElapsed, lastReading]
+  | x :: rs, ℓ, r => by simp only [List.cons_append, realElapsed, lastReading, realElapsed_snoc rs x r]; omega
+
+theorem feed_last : ∀ (es : List MEv) (m m' : Mono), m.feed es = .ok m' → m'.last = lastReading m.last (readsOf es)
+  | [], m, m', h => by simp only [Mono.feed] at h; injection h with h; subst h; rfl
+  | .read r :: es, m, m', h => by
+    simp only [Mono.feed] at h
+    split at h
+    · rename_i l m1 hl
+      rw [feed_last es m1 m' h, (Mono.latest_ok hl).2.last]; rfl
+    · cases h
+  | .restart :: es, m, m', h => by
+    simp only [Mono.feed] at h
+    rw [feed_last es _ m' h]; rfl
 
 end Hio.Timer
